@@ -124,6 +124,7 @@ CondApply0(p, e) ==
     [] e.ev = "creq" ->
          [p |-> [p EXCEPT !.creq = @ \cup {e.t}, !.native = IF e.kind = "native" THEN @ \cup {e.t} ELSE @],
           bad |-> {}]
+    [] e.ev = "cdone" -> [p |-> [p EXCEPT !.creq = @ \ {e.t}], bad |-> {}]   \* t's scope absorbed the request; t carries on
     [] e.ev = "quiescent" ->
          \* nobody who holds a notification is left asleep while the lock is free, and nobody is
          \* left waiting for a free lock
